@@ -36,10 +36,11 @@ type rosterModel struct {
 	committed [3][]int
 	reps      []int
 	next      int // next unused key number
+	epoch     int // ticks made so far (an epoch tick is none of the roster's business)
 }
 
 func (m *rosterModel) Clone() Model {
-	c := &rosterModel{reps: append([]int{}, m.reps...), next: m.next}
+	c := &rosterModel{reps: append([]int{}, m.reps...), next: m.next, epoch: m.epoch}
 	for i := range m.pending {
 		c.pending[i] = append([]int{}, m.pending[i]...)
 		c.committed[i] = append([]int{}, m.committed[i]...)
@@ -85,6 +86,8 @@ func NewRosterDriver() *RosterDriver {
 		rosterOp{kind: "commit", reps: []int{2, 1}, signer: "C"},
 		rosterOp{kind: "commit", reps: []int{1}, signer: "S"},
 		rosterOp{kind: "commit", reps: []int{3, 2, 1}, signer: "C"},
+		// an epoch tick between batches, or between the last batch and the commit: through Netmap, and Container's own handler directly
+		rosterOp{kind: "tick", signer: "C"}, rosterOp{kind: "cnrTick", signer: "C"},
 	)
 	return d
 }
@@ -113,6 +116,12 @@ func (d *RosterDriver) Init(*World) Model { return &rosterModel{} }
 func (d *RosterDriver) NumOps() int       { return len(d.ops) }
 func (d *RosterDriver) OpName(_ *Node, i int) string {
 	o := d.ops[i]
+	if o.kind == "tick" {
+		return fmt.Sprintf("netmap.newEpoch(next) by %s", o.signer)
+	}
+	if o.kind == "cnrTick" {
+		return fmt.Sprintf("container.newEpoch(next) by %s", o.signer)
+	}
 	if o.kind == "commit" && o.null {
 		return fmt.Sprintf("commitContainerListUpdate(null) by %s", o.signer)
 	}
@@ -123,6 +132,9 @@ func (d *RosterDriver) OpName(_ *Node, i int) string {
 }
 func (d *RosterDriver) Enabled(n *Node, i int) bool {
 	m := n.M.(*rosterModel)
+	if d.ops[i].kind == "tick" || d.ops[i].kind == "cnrTick" {
+		return m.epoch < 2
+	}
 	return m.next+d.ops[i].batch <= 700
 }
 
@@ -174,6 +186,12 @@ func (d *RosterDriver) Step(x *Exec, n *Node, i int) StepResult {
 			}
 			nm.next += o.batch
 		}
+	case "tick", "cnrTick":
+		scr = Script(w.Contracts["netmap"].Hash, "newEpoch", int64(m.epoch+1))
+		if o.kind == "cnrTick" {
+			scr = Script(h, "newEpoch", int64(m.epoch+1))
+		}
+		nm.epoch++
 	case "commit":
 		var rs []any
 		for _, r := range o.reps {
